@@ -14,6 +14,14 @@ RULES = {
 
 
 def run(ctx, chk):
+    _run(ctx, chk)
+    if ctx.tier == "thorough":
+        from ..witness import run_witnesses
+        chk.rule("W", "(thorough) compile_fail witnesses: naming the private state of the generator from outside the crate is rejected by rustc (E0616), while the twin using only public accessors type-checks")
+        run_witnesses(ctx, chk, "W", ['generator'])
+
+
+def _run(ctx, chk):
     for k, v in RULES.items():
         chk.rule(k, v)
     chk.explanation = (
@@ -62,6 +70,10 @@ def run(ctx, chk):
             else:
                 break
         okn = t == ctr and chain == ["as_bytes", "to_string"]
+        if not okn and [c for c in chain if c != "must_use"] == ["as_bytes", "format"]:
+            # `format!("{}", n)` / `format!("{n}")` spelling of n.to_string(): one Display placeholder, no literal text,
+            # no format options (template from the AST), its argument the fetch_add payload (MIR)
+            okn = _format_is_to_string(ctx, nb, t, ctr)
         chk.require(okn, "G1", nb.defp + ":name", nb.span,
                     "the v5 name is %s (chain %s over %s); expected the bytes of to_string(<fetch_add payload>) and nothing else" % (short(name)[:160], chain, short(t)[:60]),
                     describe_path(r))
@@ -81,6 +93,8 @@ def run(ctx, chk):
         v = r.value
         fd = dict(v[3]) if isinstance(v, tuple) and v[0] == "agg" else {}
         news = {e[3]: e[2][0] for e in r.trace if e[0] == "eff" and e[1] == "ATOMIC.new"}
+        # AtomicU64::default() is AtomicU64::new(0)
+        news.update({e[3]: Int(0) for e in r.trace if e[0] == "eff" and e[1] == "ATOMIC.default" and not e[2]})
         nsname = [n for n, f in fields.items() if "Uuid" in f["ty"]]
         okns = len(nsname) == 1 and fd.get(nsname[0]) == ("param", 1)
         chk.require(okns, "G2", nw.defp + ":namespace-unchanged", nw.span, "new() stores namespace %s" % short(fd.get(nsname[0]) if nsname else None), describe_path(r))
@@ -92,7 +106,7 @@ def run(ctx, chk):
             continue
         body = db.bodies[d]
         for c, m, bb, callee, span in effs:
-            if c == "ATOMIC" and m not in ("load", "new"):
+            if c == "ATOMIC" and m not in ("load", "new", "default"):
                 owner = body
                 while owner.kind == "Closure" and owner.parent in db.bodies:
                     owner = db.bodies[owner.parent]
@@ -126,3 +140,31 @@ def run(ctx, chk):
                 g = gens[0][2][0]
                 chk.require(isinstance(g, tuple) and g[0] == "ref" and g[1][1] == ("obj", ("param", 4)), "G4", b.defp + ":generator", gens[0][5], "id drawn from %s" % short(g))
     chk.require(n >= 7, "G4", b.defp + ":coverage", b.span, "%d transaction sites analysed" % n)
+
+
+def _format_is_to_string(ctx, nb, t, ctr):
+    from ..tables import WriterEntry, base_type
+    ents = [WriterEntry(f) for f in ctx.db.fmt if base_type(f["impl_self"] or "") == "UuidGenerator" and f["fns"][:1] == ["next"]
+            and "format!" in f["macros"]]
+    if len(ents) != 1:
+        return False
+    e = ents[0]
+    phs = e.placeholders()
+    if e.literal_text() != "" or len(phs) != 1 or phs[0][2] != "Display" or not phs[0][3]:
+        return False
+    if not (isinstance(t, tuple) and t[0] == "call" and t[1].endswith("Arguments::new") and len(t[2]) == 2):
+        return False
+    arr = t[2][1]
+    arr = arr[1] if isinstance(arr, tuple) and arr[0] == "refval" else arr
+    items = list(arr[1]) if isinstance(arr, tuple) and arr[0] == "array" else []
+    if len(items) != 1:
+        return False
+    a = items[0]
+    if not (isinstance(a, tuple) and a[0] == "call" and a[1].endswith("new_display") and len(a[2]) == 1):
+        return False
+    x = a[2][0]
+    while isinstance(x, tuple) and x[0] in ("ref", "refval"):
+        x = x[1]
+    if isinstance(x, tuple) and x[0] == "pl":
+        return False
+    return x == ctr
